@@ -8,8 +8,8 @@ from props import rt
 PID = "C04"
 LEVEL = "proof"
 MODULE = "Sigc.Props.C04"
-EXTRA_MODULES = ("Sigc.Props.Refine", "Sigc.Props.SpecK", "Sigc.Props.SlotG",)   # refinement P ⊑ S', S' ≡ S on runs clear of the known findings
-REQUIRED = ["Sigc.SlotG.connected_iff", "Sigc.SlotG.connected_false_forever", "Sigc.SlotG.conn_false_after_delS", "Sigc.SlotG.conn_false_after_move", "Sigc.Refine.refines", "Sigc.Refine.runProgram_refines", "Sigc.SpecK.model_refines_pure_spec"]
+EXTRA_MODULES = ("Sigc.Props.Refine", "Sigc.Props.Fuel", "Sigc.Props.SpecK", "Sigc.Props.SlotG",)   # refinement P ⊑ S', S' ≡ S on runs clear of the known findings
+REQUIRED = ["Sigc.SlotG.connected_iff", "Sigc.SlotG.connected_false_forever", "Sigc.SlotG.conn_false_after_delS", "Sigc.SlotG.conn_false_after_move", "Sigc.Fuel.terminates", "Sigc.Fuel.runProgram_fuel_independent", "Sigc.Refine.refines", "Sigc.Refine.runProgram_refines", "Sigc.SpecK.model_refines_pure_spec"]
 TRUSTED = rt.TRUSTED_RT
 ASSUMPTIONS = rt.ASSUMPTIONS_RT + []
 PARTIAL = []
